@@ -133,3 +133,98 @@ theorem insertSortedUnique_tie (xs : List Int) (x : Int) :
   simp [bigintsInsertSortedUnique, mergeUnique_tie, insertSortedUnique]
 
 end AC.BigintsTie
+
+namespace AC.BigintsTie
+open AC.Gen.Program AC.GoPrim AC.BigPrim P P.HX
+
+theorem bitsSet_loop_tie (x : Nat) : ∀ (n i : Nat) (set : List Nat),
+    bigintBitsSet_loop1 n (i : Int) (x : Int) (set.map Int.ofNat) =
+      some ((set ++ (List.range' i n).filter (fun j => x.testBit j)).map Int.ofNat) := by
+  intro n
+  induction n with
+  | zero => intro i set; simp [bigintBitsSet_loop1]
+  | succ n ih =>
+    intro i set
+    have hi : ¬ ((i : Int) < 0) := by omega
+    simp only [bigintBitsSet_loop1, bBit, hi, if_false, Int.toNat_natCast, bind, Option.bind,
+      List.range'_succ, List.filter_cons]
+    by_cases hb : x.testBit i = true
+    · have := ih (i + 1) (set ++ [i])
+      push_cast at this
+      simp only [hb, if_true]
+      simpa using this
+    · have hb' : x.testBit i = false := by simpa using hb
+      have := ih (i + 1) set
+      push_cast at this
+      simp only [hb', Bool.false_eq_true, if_false]
+      simpa using this
+
+/-- translated `bigint.BitsSet` on a non-negative integer = the model -/
+theorem bitsSet_tie (x : Nat) : bigintBitsSet (x : Int) = some ((bitsSet x).map Int.ofNat) := by
+  unfold bigintBitsSet bitsSet
+  have hl : Int.toNat (bBitLen (x : Int) - 0) = bitLen x := by simp [bBitLen]
+  have := bitsSet_loop_tie x (bitLen x) 0 []
+  simp only [hl, bind, Option.bind]
+  rw [List.range_eq_range']
+  simpa using this
+
+end AC.BigintsTie
+
+namespace AC.BigintsTie
+open AC.Gen.Program AC.GoPrim AC.BigPrim P P.HX
+
+theorem bCmp_le_zero' (a b : Int) : (decide (bCmp a b ≤ 0)) = decide (a ≤ b) := by
+  unfold bCmp
+  by_cases h : a < b
+  · have : a ≤ b := by omega
+    simp [h, this]
+  · by_cases h2 : a = b
+    · simp [h2]
+    · have : ¬ a ≤ b := by omega
+      simp [h, h2, this]
+
+theorem pow2_loop_tie (x : Int) : ∀ (fuel p : Nat) (hp : 0 < p) (ps : List Nat),
+    x < (p : Int) * 2 ^ fuel →
+    bigintPow2UpTo_loop1 fuel x (p : Int) (ps.map Int.ofNat) =
+      some ((ps ++ pow2Loop x p hp).map Int.ofNat) := by
+  intro fuel
+  induction fuel with
+  | zero =>
+    intro p hp ps hx
+    have hc : ¬ ((p : Int) ≤ x) := by simp at hx; omega
+    rw [pow2Loop]
+    simp [bigintPow2UpTo_loop1, bCmp_le_zero', hc]
+  | succ fuel ih =>
+    intro p hp ps hx
+    rw [pow2Loop]
+    simp only [bigintPow2UpTo_loop1, bCmp_le_zero']
+    by_cases hc : (p : Int) ≤ x
+    · have hx' : x < ((2 * p : Nat) : Int) * 2 ^ fuel := by
+        have : ((2 * p : Nat) : Int) * 2 ^ fuel = (p : Int) * 2 ^ (fuel + 1) := by
+          push_cast; rw [Int.pow_succ]; ac_rfl
+        rw [this]; exact hx
+      have := ih (2 * p) (by omega) (ps ++ [p]) hx'
+      have hl : bLsh (p : Int) 1 = ((2 * p : Nat) : Int) := by simp [bLsh]; omega
+      simp only [hc, decide_true, if_true, AC.Gen.Bigint.clone, bSet, hl]
+      simpa using this
+    · simp [hc]
+
+/-- translated `bigint.Pow2UpTo` = the model, for every integer (empty for `x ≤ 0`) -/
+theorem pow2UpTo_tie (x : Int) : bigintPow2UpTo x = some ((pow2UpTo x).map Int.ofNat) := by
+  unfold bigintPow2UpTo pow2UpTo
+  have h1 : AC.Gen.Bigint.one = ((1 : Nat) : Int) := rfl
+  have hf : x < ((1 : Nat) : Int) * 2 ^ (Int.toNat (bBitLen x + 1)) := by
+    have hb : Int.toNat (bBitLen x + 1) = bitLen x.natAbs + 1 := by simp [bBitLen]
+    rw [hb]
+    have := (bitLen_spec x.natAbs).1
+    have h2 : (x.natAbs : Int) < 2 ^ (bitLen x.natAbs + 1) := by
+      have : x.natAbs < 2 ^ (bitLen x.natAbs + 1) :=
+        Nat.lt_of_lt_of_le this (Nat.pow_le_pow_right (by omega) (by omega))
+      exact_mod_cast this
+    have h3 : x ≤ (x.natAbs : Int) := by omega
+    simp; omega
+  have := pow2_loop_tie x _ 1 (by omega) [] hf
+  simp only [h1, bind, Option.bind]
+  simpa using this
+
+end AC.BigintsTie
